@@ -72,11 +72,14 @@ class ShardResult:
     exhaustive: Optional[bool] = None
     notes: list = field(default_factory=list)
     extra: dict = field(default_factory=dict)  # summed numerically by the parent
+    trivial_samples: list = field(default_factory=list)
 
     def note_case(self, case_json: Any, nontrivial: bool, labels=(), sample_cap: int = 3):
         self.evaluations += 1
         for lab in labels:
             self.classes[lab] += 1
+        if not nontrivial and len(self.trivial_samples) < 2:
+            self.trivial_samples.append(case_json)
         if nontrivial:
             h = case_hash(case_json)
             if h not in self.nontrivial:
@@ -166,9 +169,8 @@ def run_hypothesis(
         last = {}
 
         def body(case):
-            if counted["first_pass"]:
-                nt, labels = classify(case) if classify else (True, ())
-                result.note_case(to_json(case), nt, labels, sample_cap)
+            nt, labels = classify(case) if classify else (True, ())
+            result.note_case(to_json(case), nt, labels, sample_cap)
             try:
                 ds = oracle(case)
             except HarnessError:
@@ -180,8 +182,7 @@ def run_hypothesis(
             fresh = []
             for d in ds:
                 if d.sig in known:
-                    if counted["first_pass"]:
-                        result.known_hits[d.sig] += 1
+                    result.known_hits[d.sig] += 1
                 elif d.sig in excluded:
                     pass
                 else:
@@ -393,6 +394,8 @@ def main(argv=None) -> int:
         per_kind[kind] = per_kind.get(kind, 0) + len(res.samples[:2])
         if per_kind[kind] <= 4:
             agg.samples.extend(res.samples[:2])
+        if len(agg.trivial_samples) < 3:
+            agg.trivial_samples.extend(res.trivial_samples[:1])
         agg.failures.extend(res.failures)
         agg.known_hits.update(res.known_hits)
         agg.skipped += res.skipped
@@ -439,7 +442,7 @@ def main(argv=None) -> int:
         "evaluations": agg.evaluations,
         "distinct_nontrivial": len(agg.nontrivial),
         "rule": mod.RULE,
-        "samples": agg.samples[:12],
+        "samples": (agg.samples[:12] or agg.trivial_samples[:3]),
         "classes": dict(sorted(agg.classes.items())),
         "skipped_or_undecided": agg.skipped,
         "known_finding_hits_excluded": dict(agg.known_hits),
@@ -464,18 +467,20 @@ def main(argv=None) -> int:
         "wall_s": round(wall, 2),
         "violations": len(by_sig),
     }
+    evidence_problem = None
     try:
         validate_evidence(ev)
     except HarnessError as exc:
-        print(f"HARNESS-ERROR property={prop} evidence invalid: {exc}")
-        return 2
+        evidence_problem = str(exc)
     except Exception as exc:
-        print(f"HARNESS-ERROR property={prop} evidence invalid: {type(exc).__name__}: {str(exc)[:500]}")
-        return 2
+        evidence_problem = f"{type(exc).__name__}: {str(exc)[:500]}"
     os.makedirs(EVIDENCE_DIR, exist_ok=True)
     with open(os.path.join(EVIDENCE_DIR, f"{prop}.json"), "w") as f:
         json.dump(ev, f, indent=1, default=str)
         f.write("\n")
+    if evidence_problem and not by_sig:
+        print(f"HARNESS-ERROR property={prop} evidence invalid: {evidence_problem}")
+        return 2
 
     for ln in known_lines:
         print(ln)
